@@ -4,6 +4,13 @@ S=/tmp/seedout/$1; P=$2
 /verif/tools/confirm_seed.sh $S
 W=/var/tmp/seedrun-$1
 git -C /repo worktree remove --force $W 2>/dev/null
-git -C /repo worktree add -q --detach $W HEAD && git -C $W apply $S/patch.diff
+git -C /repo worktree add -q --detach $W HEAD
+if ! git -C $W apply $S/patch.diff 2>/dev/null; then
+  # the seed was written against an older /repo HEAD: use the ported patch if the builder left one
+  if [ -f /verif/seeded/$1/patch-head.diff ] && git -C $W apply /verif/seeded/$1/patch-head.diff; then :; else
+    echo "patch does not apply to /repo HEAD" > $S/check.log; echo "check_rc=apply-failed" >> $S/check.log
+    git -C /repo worktree remove --force $W; exit 0
+  fi
+fi
 cd /verif && VERIF_REPO=$W ./check $P > $S/check.log 2>&1; echo "check_rc=$?" >> $S/check.log
 git -C /repo worktree remove --force $W
